@@ -46,6 +46,9 @@ impl Progress {
 }
 
 /// in a worker: limit the address space and start the watchdog
+/// per-case override of the worker's watchdog (0 = use the worker's default); set before `begin_case`
+pub static CASE_LIMIT_S: AtomicU64 = AtomicU64::new(0);
+
 pub fn worker_init(as_limit_bytes: u64, watchdog_s: u64) {
     unsafe {
         let lim = libc::rlimit { rlim_cur: as_limit_bytes, rlim_max: as_limit_bytes };
@@ -54,6 +57,10 @@ pub fn worker_init(as_limit_bytes: u64, watchdog_s: u64) {
     std::thread::spawn(move || loop {
         std::thread::sleep(std::time::Duration::from_millis(200));
         let s = CASE_STARTED_MS.load(Ordering::Relaxed);
+        let watchdog_s = match CASE_LIMIT_S.load(Ordering::Relaxed) {
+            0 => watchdog_s,
+            o => o,
+        };
         if s != 0 && now_ms() > s + watchdog_s * 1000 {
             eprintln!("WATCHDOG: case running for more than {watchdog_s}s");
             std::process::exit(EXIT_HANG);
